@@ -740,6 +740,15 @@ func (a *fnAn) branch(b *ssa.BasicBlock, st tstate) []tstate {
 		}
 		return outs
 	}
+	// a case split on the condition itself (Probe only): one edge is cut
+	if av, ok := a.t.assume[iff.Cond]; ok && av.P != nil && av.P.Lo != nil && av.P.Hi != nil && av.P.Lo.Cmp(av.P.Hi) == 0 {
+		if av.P.Lo.Sign() != 0 {
+			outs[0] = st.clone()
+		} else {
+			outs[1] = st.clone()
+		}
+		return outs
+	}
 	outs[0] = a.refine(st.clone(), iff.Cond, true, b)
 	outs[1] = a.refine(st.clone(), iff.Cond, false, b)
 	return outs
@@ -1904,6 +1913,10 @@ func (a *fnAn) errNonNil(v ssa.Value, st tstate) bool {
 		case "errors.New", "fmt.Errorf":
 			return true
 		}
+		// a helper of the module that only ever builds errors: unknownTagError(kind, tag)
+		if g := x.Common().StaticCallee(); g != nil && a.t.alwaysErr(core.Origin(g), 0) {
+			return true
+		}
 	case *ssa.UnOp:
 		// a package-level sentinel: var errX = errors.New(...)
 		if g, ok := x.X.(*ssa.Global); ok && x.Op == token.MUL && a.t.sentinelError(g) {
@@ -1927,6 +1940,38 @@ func (a *fnAn) errNonNil(v ssa.Value, st tstate) bool {
 	}
 	_, ok := st["N:"+v.Name()]
 	return ok
+}
+
+// alwaysErr: fn has one result, an error, and every return hands back a freshly
+// built one (errors.New, fmt.Errorf, a concrete error value, another such helper).
+func (t *TLG) alwaysErr(fn *ssa.Function, depth int) bool {
+	if fn == nil || depth > 2 || len(fn.Blocks) == 0 || !t.c.P.InModule(fn) || fn.Signature.Results().Len() != 1 || !isErrorType(fn.Signature.Results().At(0).Type()) {
+		return false
+	}
+	n := 0
+	for _, b := range fn.Blocks {
+		for _, in := range b.Instrs {
+			r, ok := in.(*ssa.Return)
+			if !ok {
+				continue
+			}
+			n++
+			switch v := r.Results[0].(type) {
+			case *ssa.MakeInterface:
+			case *ssa.Call:
+				nm := calleeName(v.Common())
+				if nm == "errors.New" || nm == "fmt.Errorf" {
+					continue
+				}
+				if g := v.Common().StaticCallee(); g == nil || !t.alwaysErr(core.Origin(g), depth+1) {
+					return false
+				}
+			default:
+				return false
+			}
+		}
+	}
+	return n > 0
 }
 
 // sentinelError: a package-level error variable that is given a freshly built
